@@ -44,7 +44,7 @@ ASSUMPTIONS = [
     'is not a metric and is excluded)',
     'the near-pi grid stops at pi - 1e-6 and pi itself (exactly symmetric and rounding-level asymmetric half-turns both occur)',
 ]
-REQUIRED_CLASSES = ['stack-sizes', 'stack-sign-patterns', 'containers:matrix', 'containers:quaternion', 'containers:quaternion-rows', 'pairs:group', 'pairs:conjugate', 'zero:same', 'zero:antipodal', 'angle:pi', 'angle:<1e-2',
+REQUIRED_CLASSES = ['kept-results', 'shared-memory-arguments', 'stack-sizes', 'stack-sign-patterns', 'containers:matrix', 'containers:quaternion', 'containers:quaternion-rows', 'pairs:group', 'pairs:conjugate', 'zero:same', 'zero:antipodal', 'angle:pi', 'angle:<1e-2',
                     'angle:near-pi', 'inv:left', 'inv:right', 'triangle:tight', 'triangle:strict', 'triangle:geodesic',
                     'entry:single', 'entry:N-row', 'cf:right', 'cf:left']
 
@@ -544,6 +544,54 @@ def job_reuse(ctx, k):
         ctx.close([d2], [d1], 1e-8, f'{m}[single] symmetric d(a,b) = d(b,a) when the same arrays are reused', f'k{k}')
         ctx.close([d3], [d1], 0.0, f'{m}[single] same answer when called again on the same arrays', f'k{k}')
         ctx.expect(np.array_equal(X, X0) and np.array_equal(Y, Y0), f'{m} leaves its arguments as they were', f'k{k} single', None, 'unchanged')
+    # (2) results KEPT by the caller while it goes on calling with other stacks of the same length: each kept result is still the distances of
+    #     ITS OWN pairs afterwards and shares no memory with a later result (raw return values are kept, not copies)
+    Sg = A.Gl(A.G48(), k)
+    for n in (1, 3, 4, 7):
+        stacksQ = [(np.array([Sg[(5 * j + t) % len(Sg)] for j in range(n)]), np.array([Sg[(7 * j + 3 * t + 1) % len(Sg)] for j in range(n)])) for t in range(3)]
+        for m in QM + ('chordal',):
+            fn = getattr(M, m)
+            if m == 'chordal':
+                stacks = [(np.array([rq.R(q) for q in X]), np.array([rq.R(q) for q in Y])) for X, Y in stacksQ]
+            else:
+                stacks = stacksQ
+            kept = [fn(X.copy(), Y.copy()) for X, Y in stacks]
+            for t, ((X, Y), r_) in enumerate(zip(stacks, kept)):
+                exp = np.array([float(fn(X[j].copy(), Y[j].copy())) for j in range(n)])
+                got = np.asarray(r_, float).reshape(-1)
+                ctx.evals += 1
+                ctx.expect(got.shape == exp.shape and bool(np.all(np.abs(got - exp) <= 1e-8)), f'{m}[N-row]: a result kept by the caller is still the distances of its own pairs after later calls with stacks of the same length',
+                           f'N={n} call#{t} of 3 k{k}', got, exp, 1e-8)
+            arrs = [r_ for r_ in kept if isinstance(r_, np.ndarray) and r_.size]
+            ctx.expect(not any(np.shares_memory(arrs[a_], arrs[b_]) for a_ in range(len(arrs)) for b_ in range(a_ + 1, len(arrs))), f'{m}[N-row]: results of different calls share no memory', f'N={n} k{k}', 'shared', 'separate')
+    ctx.cls('kept-results')
+    # (3) two arguments that are views of ONE buffer (a matrix and its transpose, a DCM object and its inverse, a flipped view): different
+    #     rotations - the distance is that of independent copies of the same numbers
+    from ahrs import DCM
+    for gi, qg in enumerate([A.MENU[k], A.MENU[(k + 3) % 8], Sg[11], Sg[30]]):
+        R = rq.R(rq.qunit(qg))
+        D = DCM(R.copy())
+        pairs_v = [('R, R.T', R, R.T), ('R.T, R', R.T, R), ('DCM, DCM.I', D, D.I), ('DCM, DCM.T', D, D.T), ('R, R (the same object)', R, R)]
+        for m in RM:
+            fn = getattr(M, m)
+            for pn, a_, b_ in pairs_v:
+                key = f'rotation#{gi} arguments={pn} k{k}'
+                ctx.evals += 1
+                try:
+                    ref = float(fn(np.array(a_, float).copy(), np.array(b_, float).copy()))
+                    v = float(fn(a_, b_))
+                except Exception as ex:
+                    ctx.fail(f'{m}: raises for two arguments that are views of one buffer', key, repr(ex)[:120], 'a distance'); continue
+                ctx.expect(abs(v - ref) <= 1e-12, f'{m}: two arguments that share memory (a matrix and its transpose ...) are judged by their VALUES, like independent copies', key, v, ref, 1e-12)
+        qv = rq.qunit(qg)
+        buf = np.concatenate([qv, qv[::-1]])
+        for m in QM:
+            fn = getattr(M, m)
+            for pn, a_, b_ in (('q, q[::-1] (reversed view)', qv, qv[::-1]), ('two halves of one buffer', buf[:4], buf[4:]), ('q, q (the same object)', qv, qv)):
+                ctx.evals += 1
+                ref = float(fn(np.array(a_).copy(), np.array(b_).copy())); v = float(fn(a_, b_))
+                ctx.expect(abs(v - ref) <= 1e-12, f'{m}: two arguments that share memory are judged by their VALUES, like independent copies', f'rotation#{gi} arguments={pn} k{k}', v, ref, 1e-12)
+    ctx.cls('shared-memory-arguments')
     ctx.transitions += 30
     ctx.states += 8
 
